@@ -209,6 +209,17 @@ def r16_2(cx):
                     ok = True
             cx.check(ok, 'find-some', find, find.loc(pos.bb, pos.idx), 'Some(item) only where is_erased(item) is false',
                      fail_detail='find can return an item without having tested is_erased on it')
+    # ... or `Some(item)` built first and passed on only where the filter predicate held (Option::filter rewritten
+    # into its match by the normalisation): the return place is assigned that Option on the !is_erased edge
+    for pos, st in find.statements():
+        if st['k'] == 'assign' and st['pl']['l'] == 0 and not st['pl']['p'] and st['rv']['k'] == 'use' and st['rv']['o']['k'] in ('copy', 'move'):
+            v = find.operand_expr(st['rv']['o']).strip()
+            if v.kind == 'agg' and v.info.get('variant') == 'Some' and len(v.args) == 1:
+                n += 1
+                item = v.args[0]
+                ok = any((x := m.erased_of(e)) is not None and val is False and show(x.strip()) == show(item.strip()) for e, val, edge in find.facts_at(pos.bb))
+                cx.check(ok, 'find-some', find, find.loc(pos.bb, pos.idx), 'Some(item) is passed on only where is_erased(item) is false',
+                         fail_detail='find can return an item without having tested is_erased on it')
     # ... or the candidate goes through Option::filter(|item| !is_erased(item)) on its way out
     for c in find.calls('filter'):
         if 'ption' in c.callee and c.result_local() == 0:
